@@ -1,5 +1,5 @@
 (* C08 -- Block2: a client fetching blocks in order reassembles exactly the body. *)
-From CoapV Require Import Base Header Packet UintOpt BlockValue Encode Response Accessors BlockHandler proofs.P11 proofs.P08b.
+From CoapV Require Import Base Header Packet UintOpt BlockValue Encode Response Accessors BlockHandler proofs.P11 proofs.P08b proofs.P08c.
 
 (* what one served block is, for every body (the empty one included), block number and size:
    payload = bytes [num*size, num*size+size) of the body, Block2 = (num, more iff bytes remain after it, szx),
@@ -47,7 +47,68 @@ Theorem C08_followups_served : forall szx c reqs k st, cached_resp st = Some c -
 Proof. exact followups_served. Qed.
 Print Assumptions C08_followups_served.
 
+(* the same when the client changes the block size mid-transfer: any run of follow-ups whose numbers agree with the
+   running byte offset at whatever size each names is served from the cache, the payloads concatenate to the rest of
+   the body, the entry is released with the last *)
+Theorem C08_renegotiated_followups_served : forall c reqs off st, cached_resp st = Some c ->
+  continues (len (payload c)) off reqs ->
+  let '(outs, st') := serve_all st reqs in
+  Forall (fun x => fst x = Ok true) outs /\
+  concat (map payload_of outs) = drop off (payload c) /\
+  cached_resp st' = None.
+Proof. exact renegotiated_followups_served. Qed.
+Print Assumptions C08_renegotiated_followups_served.
+
+(* the first exchange of a fragmented response: block 0 = the first block-size bytes, more flag set iff bytes remain,
+   the application's response cached *)
+Theorem C08_first_fragment : forall req M st rp ms b2, response req = Some rp -> get_option rp OPT_BLOCK2 = None ->
+  message_size_hack rp = Ok ms -> negotiate (last_b2 st) ms (len (payload rp)) M = Ok (Some b2) -> b_num b2 = 0 ->
+  let hm := block_size b2 <? len (payload rp) in
+  exists req', intercept_response_st req M st = (Ok hm, req', if hm then st_resp st (Some rp) else st) /\
+    payload_of (Ok hm, req') = take (block_size b2) (payload rp) /\
+    more_of (Ok hm, req') = Some hm.
+Proof. exact first_fragment. Qed.
+Print Assumptions C08_first_fragment.
+
+(* a whole transfer, end to end on the handler's state functions: intercept_response fragments the application's
+   response, the follow-ups (at any sizes, consistent offsets) are served by intercept_request's Block2 step from
+   the cache; the client's concatenation is byte for byte the body; the entry is released at the end *)
+Theorem C08_whole_transfer : forall req M st rp ms b2 reqs, response req = Some rp -> get_option rp OPT_BLOCK2 = None ->
+  message_size_hack rp = Ok ms -> negotiate (last_b2 st) ms (len (payload rp)) M = Ok (Some b2) -> b_num b2 = 0 ->
+  block_size b2 < len (payload rp) ->
+  continues (len (payload rp)) (block_size b2) reqs ->
+  exists req' st1, intercept_response_st req M st = (Ok true, req', st1) /\
+    let '(outs, st') := serve_all st1 reqs in
+    Forall (fun x => fst x = Ok true) outs /\
+    payload_of (Ok true, req') ++ concat (map payload_of outs) = payload rp /\
+    cached_resp st' = None.
+Proof. exact whole_transfer. Qed.
+Print Assumptions C08_whole_transfer.
+
 Example C08_example :
   let body := repeat 7 40 in
   chunks_from 41 16 0 body = [repeat 7 16; repeat 7 16; repeat 7 8].
 Proof. vm_compute. reflexivity. Qed.
+
+(* non-vacuity of C08_whole_transfer: a 100-byte body at budget 100 (the server picks 64-byte blocks); the client then
+   continues at 32-byte blocks (block 2 at 32 = offset 64) and finishes with a 16-byte block request (block 6 = offset 96) *)
+Definition ex_block2_req (k szx : N) : request :=
+  mkRequest (add_option packet_new OPT_BLOCK2 (match block_encode (mkBlock k false szx) with Ok v => v | _ => [] end))
+            (Some packet_new) (Some 1).
+Example C08_whole_transfer_example :
+  let body := map N.of_nat (seq 1 100) in
+  let rp := set_payload packet_new body in
+  let req := mkRequest packet_new (Some rp) (Some 1) in
+  let reqs := [ex_block2_req 2 1; ex_block2_req 6 0] in
+  exists ms b2, message_size_hack rp = Ok ms /\ negotiate None ms 100 100 = Ok (Some b2) /\ b_num b2 = 0 /\ block_size b2 = 64 /\
+    continues 100 64 reqs /\
+    (let '(_, _, st1) := intercept_response_st req 100 bstate_default in
+     let '(outs, st') := serve_all st1 reqs in
+     map payload_of outs = [take 32 (drop 64 body); drop 96 body] /\ cached_resp st' = None).
+Proof.
+  cbv zeta. eexists _, _. split; [vm_compute; reflexivity|]. split; [vm_compute; reflexivity|].
+  split; [reflexivity|]. split; [reflexivity|]. split.
+  - cbn [continues]. exists 2, false, 1. repeat split; try (vm_compute; congruence).
+    exists 6, false, 0. repeat split; try (vm_compute; congruence).
+  - vm_compute. split; reflexivity.
+Qed.
